@@ -59,6 +59,7 @@ RGB_OPS = st.one_of(
     op("off"), op("get"), op("on_default"),
     op("on", red=comp, green=comp, blue=comp), op("set_color", red=comp, green=comp, blue=comp),
     op("fade", red=comp, green=comp, blue=comp, duration_ms=small_ms, steps=steps_v),
+    op("fade", red=st.integers(0, 255), green=st.integers(0, 255), blue=st.integers(0, 255), duration_ms=st.integers(1, 2000), steps=st.one_of(st.just(50), st.integers(1, 64))),
     op("blink", red=comp, green=comp, blue=comp, times=times_v, delay_ms=small_ms),
 )
 SERVO_OPS = st.one_of(
